@@ -334,7 +334,121 @@ class NbSession:
         return None
 
     # ---- the session
+    # ---- "wide pitch": 2-D CDF-5 variables whose rows are 4 GiB / 3 GiB apart (sparse file): the offsets of the
+    #      flattened segments of interleaved requests differ by >= 2^31, posted in DEscending order so that
+    #      merge_requests has to sort them; only a few KB are ever written
+    def build_wide(self):
+        rng = self.rng
+        f = self.f
+        s = Schema.__new__(Schema)
+        s.rng = rng; s.fmt = 5; s.types = list(range(1, 12))
+        yb = rng.range(2, 3)
+        s.dims = [('ya', 3), ('xa', 2 ** 30), ('yb', yb), ('xb', 3 * 2 ** 29)]
+        s.vars = [Var(0, 'v0', 4, [0, 1], [3, 2 ** 30], False), Var(1, 'v1', 3, [2, 3], [yb, 3 * 2 ** 29], False)]
+        s.numrecs = 0
+        self.s = s; self.fmt = 5; self.has_rec = False; self.numrecs = 0
+        self.hint = rng.choice(['auto', 'enable', 'disable'])
+        self.emit('hint nc_in_place_swap %s' % self.hint)
+        self.emit('* create %d 5 1' % f)
+        for l in s.define_lines(f):
+            self.emit(l)
+        self.emit('* enddef %d' % f)
+        self.ops.append(dict(op='inq', ln=self.emit('* inq %d' % f)))
+        self.written = {}
+        self.pending = [[] for _ in range(self.np)]
+        self.slots_free = [list(range(63, -1, -1)) for _ in range(self.np)]
+        self.attached = [None] * self.np
+        self.poisoned = [False] * self.np
+        self.allow_overlap_gets = False
+        W = 10
+        win = {}
+        for v in s.vars:
+            c0 = rng.choice([0, 5, rng.below(v.shape[1] - W), v.shape[1] - W])
+            win[v.vid] = c0
+            self.blocking_put(v, [0, c0], [v.shape[0], W], [1, 1])        # old values of the window, every row
+
+        def verify():
+            for v in s.vars:
+                st = [0, win[v.vid]]; ct = [v.shape[0], W]
+                ln = self.emit('* get %d c %d vara t%d c 2 %s %s' % (f, v.vid, v.xtype, fmt_list(st), fmt_list(ct)))
+                self.ops.append(dict(op='get', ln=ln, v=v, start=st, count=ct, stride=[1, 1],
+                                     expect={tuple(i): self.written.get((v.vid, tuple(i))) for i in O.req_indices(st, ct, [1, 1])}))
+
+        def column_reqs(r, kind, v):
+            """2-3 requests of rank r on v, higher columns first; columns of different ranks are disjoint"""
+            cols = [win[v.vid] + 3 * r + j for j in (2, 1, 0)][:rng.range(2, 3)]
+            out = []
+            for c in cols:
+                shape = rng.below(4)
+                Y = v.shape[0]
+                if shape == 0 and Y >= 3:
+                    part = ([0, c], [2, 1], [2, 1])            # rows 0 and 2
+                elif shape == 1:
+                    part = ([rng.below(Y - 1), c], [2, 1], [1, 1])  # two consecutive rows
+                else:
+                    part = ([0, c], [Y, 1], [1, 1])            # the whole column
+                form = 'vars' if part[2] != [1, 1] else rng.choice(['vara', 'vars'])
+                memk = v.xtype if rng.chance(2, 3) else rng.choice([4, 6, 10])
+                out.append(self.make_req(r, kind, v, form, [part], memk=memk))
+            return out
+
+        use_bput = rng.chance(1, 3)
+        if use_bput:
+            for r in range(self.np):
+                self.attached[r] = 256
+                ln = self.emit('%d attach %d 256' % (r, f))
+                self.ops.append(dict(op='attach', ln=ln, rank=r, n=256, expect=0))
+        for rnd in range(rng.range(1, 2)):
+            # puts
+            for r in range(self.np):
+                for v in (s.vars if rng.chance(1, 2) else [rng.choice(s.vars)]):
+                    for q in column_reqs(r, 'bput' if (use_bput and rng.chance(1, 2)) else 'iput', v):
+                        self.post_q(r, q)
+            self.complete_wide()
+            verify()
+            # a blocking put_var1 somewhere in the window, then interleaved gets, higher columns first
+            v = rng.choice(s.vars)
+            self.blocking_put(v, [rng.below(v.shape[0]), win[v.vid] + rng.below(W)], [1, 1], [1, 1])
+            for r in range(self.np):
+                for v in (s.vars if rng.chance(1, 2) else [rng.choice(s.vars)]):
+                    for q in column_reqs(r, 'iget', v):
+                        self.post_q(r, q)
+            self.complete_wide()
+        verify()
+        if use_bput:
+            for r in range(self.np):
+                self.do_inq_buffer(r)
+                self.do_detach(r)
+        self.ops.append(dict(op='close', ln=self.emit('* close %d' % f)))
+        return self
+
+    def complete_wide(self):
+        rng = self.rng
+        np_ = self.np
+        toks = lambda r: [str(q.slot) for q in self.pending[r]]
+        if rng.chance(1, 3):
+            self.indep_now = True
+            self.emit('* begin_indep %d' % self.f)
+            for r in range(np_):
+                t = toks(r)
+                self.do_step(r, ('wait', -1, []) if rng.chance(1, 2) else ('wait', len(t), t), 'i')
+                if np_ > 1:
+                    self.emit('* barrier')
+            self.indep_now = False
+            self.emit('* end_indep %d' % self.f)
+            self.ops.append(dict(op='sync', ln=self.emit('* sync %d' % self.f)))
+        else:
+            waits = []
+            for r in range(np_):
+                t = toks(r)
+                if rng.chance(1, 2):
+                    rng.shuffle(t)
+                waits.append(('wait', -1, []) if rng.chance(1, 2) else ('wait', len(t), t))
+            self.do_coll_wait(waits)
+
     def build(self):
+        if self.profile == 'wide':
+            return self.build_wide()
         rng = self.rng
         f = self.f
         self.make_schema()
